@@ -154,6 +154,21 @@ pub fn check(sc: &Scenario, ex: &Exec, a: &Analysis) -> Vec<Violation> {
         }
     }
 
+    if dt > 0 {
+        if let Some(by) = sc.name.split("/by").nth(1).and_then(|x| x.split('/').next()).and_then(|x| x.parse::<u64>().ok()) {
+            let limit = by + dt + TAU;
+            match ex.done_at_ms {
+                Some(d) if d <= limit => {}
+                other => {
+                    if ex.now_ms >= limit {
+                        v.push(viol(P, "c", &format!("shutdown-outlasts-disconnect-timeout:unflushed-bytes:{}", shutdown_reason(sc, ex, a)), format!(
+                            "shutdown had begun by {by} ms with response bytes the peer does not read; client_disconnect_timeout is {dt} ms but the connection future finished at {:?} (virtual time now {} ms)", other, ex.now_ms)));
+                    }
+                }
+            }
+        }
+    }
+
     // (d) graceful shutdown
     if let Some((sig_ms, sig_log)) = ex.signal_fired_at {
         // nothing is started after the signal
@@ -210,7 +225,7 @@ pub fn nontrivial(ex: &Exec, _a: &Analysis) -> bool {
 
 pub fn scenarios(_tier: &str) -> Vec<Scenario> {
     let mut out = vec![];
-    let budgets = vec![("read", 10), ("write", 10), ("flush", 6), ("env", 40), ("envq", 24), ("shutdown", 3)];
+    let budgets = vec![("read", 40), ("write", 40), ("flush", 40), ("env", 200), ("envq", 120), ("shutdown", 20)];
     let ok = || HandlerProgram::ok(BodySpec::Bytes(b"ok".to_vec()));
     let mk = |name: String, reqs: Vec<RequestSpec>, progs: Vec<HandlerProgram>| {
         let reqs: Vec<RequestSpec> = reqs.into_iter().enumerate().map(|(i, mut r)| {
@@ -295,6 +310,29 @@ pub fn scenarios(_tier: &str) -> Vec<Scenario> {
             s.config.signal = true;
             s.env.signal_at = Some(250);
         });
+        // shutdown entered while response bytes are still unwritten and the peer has stopped
+        // reading: the flush never completes. `by<ms>` = instant by which shutdown has begun.
+        add("stalled-writes-408/by1750", vec![RequestSpec::new("GET", 0)], vec![ok()], &|s| {
+            s.env.shutdown_never = false;
+            s.env.stall_writes_after = Some(0);
+            s.config.request_timeout_ms = 1000;
+            s.segments = vec![Segment { when: When::Start, from: 0, to: 10 }];
+        });
+        add("stalled-writes-peer-fin/by1000", vec![RequestSpec::new("GET", 0)], vec![ok()], &|s| {
+            s.env.shutdown_never = false;
+            s.env.stall_writes_after = Some(10);
+            s.fin = FinPlan::At(250);
+        });
+        add("stalled-writes-parse-error/by750", vec![RequestSpec::new("POST", 0).malformed(Malformed::ClAndTe)], vec![ok()], &|s| {
+            s.env.shutdown_never = false;
+            s.env.stall_writes_after = Some(0);
+        });
+        add("stalled-writes-drain/by1000", vec![RequestSpec::new("GET", 0)], vec![ok()], &|s| {
+            s.env.shutdown_never = false;
+            s.env.stall_writes_after = Some(10);
+            s.config.signal = true;
+            s.env.signal_at = Some(250);
+        });
     }
     // (d) graceful shutdown signal at every event boundary
     let stream_body = || HandlerProgram::ok(BodySpec::BodyStream(vec![Chunk::Data(b"he".to_vec()), Chunk::Pending, Chunk::Data(b"llo".to_vec()), Chunk::Pending, Chunk::Data(b"!".to_vec())]));
@@ -305,6 +343,9 @@ pub fn scenarios(_tier: &str) -> Vec<Scenario> {
         ("pipelined-2", vec![RequestSpec::new("GET", 0), RequestSpec::new("GET", 1)], vec![ok().pend(1), ok()]),
         ("pipelined-3-streaming", vec![RequestSpec::new("GET", 0), RequestSpec::new("GET", 1), RequestSpec::new("GET", 2)], vec![stream_body().pend(1), ok(), ok()]),
         ("post-reading", vec![RequestSpec::new("POST", 0).cl(b"0123456789"), RequestSpec::new("GET", 1)], vec![ok().pend(1), ok()]),
+        ("post-body-later", vec![RequestSpec::new("POST", 0).cl(b"0123456789")], vec![ok()]),
+        ("post-chunked-body-later", vec![RequestSpec::new("POST", 0).chunked(vec![ChunkSpec::plain(b"01234"), ChunkSpec::plain(b"56789")])], vec![ok()]),
+        ("post-body-later-pipelined", vec![RequestSpec::new("POST", 0).cl(b"0123456789"), RequestSpec::new("GET", 1)], vec![ok(), ok()]),
     ] {
         for dt in [0u64, 1000] {
             for later in [false, true] {
@@ -321,6 +362,16 @@ pub fn scenarios(_tier: &str) -> Vec<Scenario> {
                     let end0 = st.spans[0].2;
                     s.segments = vec![Segment { when: When::Start, from: 0, to: end0 }, Segment { when: When::At(500), from: end0, to: st.bytes.len() }];
                 }
+                if n.contains("body-later") {
+                    // the body of the in-flight request arrives in two later pieces
+                    let st = s.stream();
+                    let (_, he, _) = st.spans[0];
+                    s.segments = vec![
+                        Segment { when: When::Start, from: 0, to: he + 2 },
+                        Segment { when: When::At(500), from: he + 2, to: he + 6 },
+                        Segment { when: When::At(1000), from: he + 6, to: st.bytes.len() },
+                    ];
+                }
                 out.push(s);
             }
         }
@@ -331,7 +382,7 @@ pub fn scenarios(_tier: &str) -> Vec<Scenario> {
 pub fn bound(sc: &Scenario, tier: &str) -> u32 {
     let drain = sc.name.starts_with("drain");
     match (tier, drain) {
-        ("thorough", _) => 2,
+        ("thorough", _) => 4,
         (_, true) => 2,
         (_, false) => 1,
     }
